@@ -281,21 +281,46 @@ theorem draw_matrix (c : Ctx K) (x y : K) (ps : List (PathRef K)) :
 /-- the style a path receives when it is drawn on its own: the current style with the dash pattern
 canonicalised by `checkDash` (and no stroke paint when `checkDash` finds that no dash reaches the path) -/
 def styleFor (s : Style K) (p : PathRef K) : Style K :=
-  { s with dashes := (cd s.dashOff s.dashes p.len).1,
-           stroke := if (cd s.dashOff s.dashes p.len).2 then s.stroke else Paint.none }
+  { s with dashes := (drawDashes (opsK tr cd) s.width s.dashOff s.dashes p.len).1,
+           stroke := if (drawDashes (opsK tr cd) s.width s.dashOff s.dashes p.len).2 then s.stroke else Paint.none }
+
+/-- DrawPath judges the dash pattern in the units the renderers use (7030ab4): `checkDash` sees the
+offset and every dash multiplied by the stroke width; the stroke paint is kept iff it says so; the
+recorded pattern is empty when it returns none and the canonical *unscaled* pattern otherwise. With
+stroke width 1 this is `checkDash` on the pattern itself. -/
+theorem draw_dashes_units (w off len : K) (d : List K) :
+    (drawDashes (opsK tr cd) w off d len).2 = (cd (off * w) (d.map (· * w)) len).2 ∧
+    ((cd (off * w) (d.map (· * w)) len).1 = [] → (drawDashes (opsK tr cd) w off d len).1 = []) ∧
+    ((cd (off * w) (d.map (· * w)) len).1 ≠ [] →
+      (drawDashes (opsK tr cd) w off d len).1 = (dashCanonical (arithK tr) off d).2) ∧
+    (drawDashes (opsK tr cd) 1 off d len).2 = (cd off d len).2 := by
+  refine ⟨rfl, ?_, ?_, ?_⟩
+  · intro h
+    show (if (cd (off * w) (d.map (· * w)) len).1.isEmpty then (cd (off * w) (d.map (· * w)) len).1 else _) = []
+    simp [h]
+  · intro h
+    show (if (cd (off * w) (d.map (· * w)) len).1.isEmpty then _ else _) = _
+    have : (cd (off * w) (d.map (· * w)) len).1.isEmpty = false := by
+      cases hh : (cd (off * w) (d.map (· * w)) len).1 with
+      | nil => exact absurd hh h
+      | cons _ _ => rfl
+    simp only [this]
+    rfl
+  · show (cd (off * 1) (d.map (· * 1)) len).2 = _
+    simp
 
 /-- In `DrawPath(x, y, p₁ … pₙ)` every path is drawn with the current style (dash pattern as
 canonicalised by `checkDash` for that path), whatever `checkDash` says about the other paths of the
 same call: the renderer calls are exactly one per path, in order. -/
 theorem draw_style_loop (s : Style K) (m : Mat K) (ps : List (PathRef K)) :
-    loopCalls (opsK tr cd) s.dashOff s.dashes m s ps = ps.map (fun p => ⟨.path p (styleFor cd s p), m⟩) := by
+    loopCalls (opsK tr cd) s.dashOff s.dashes m s ps = ps.map (fun p => ⟨.path p (styleFor tr cd s p), m⟩) := by
   induction ps with
   | nil => rfl
   | cons p ps ih => simp only [loopCalls, List.map_cons, ih]; rfl
 
 theorem draw_style (c : Ctx K) (x y : K) (ps : List (PathRef K)) (hv : visible tr cd c = true) :
     drawCalls (opsK tr cd) (.drawPath x y ps) c =
-      ps.map (fun p => ⟨.path p (styleFor cd c.st.style p), baseK tr cd c x y⟩) := by
+      ps.map (fun p => ⟨.path p (styleFor tr cd c.st.style p), baseK tr cd c x y⟩) := by
   unfold visible at hv
   simp only [drawCalls, pathCalls]
   split
@@ -451,14 +476,20 @@ theorem clip_is_translation (r : Rct K) (cv : Canvas K) :
     (cv.clip (opsK tr cd) r).layers = (cv.transform (opsK tr cd) (Matrix.Translate C15M.ident (-r.x0) (-r.y0))).layers ∧
     (cv.clip (opsK tr cd) r).W = r.x1 - r.x0 ∧ (cv.clip (opsK tr cd) r).H = r.y1 - r.y0 := ⟨rfl, rfl, rfl⟩
 
-/-- How far `Fit` lets a stroke reach from the path (the repaired code, 79f3f8c): exactly half the
-width for butt/round caps with bevel/round joins (unchanged); at least `max(Limit, 1.001)` half
-widths for a miter or arcs join with a finite limit (conservative: the full miter tip lies at most
-`Limit` half widths from its vertex); at least √2 half widths for square caps (their corners). -/
+/-- the factor of half the stroke width that `Fit` allows for a join with limit `L` -/
+def joinReach (join : Nat) (L : K) : K :=
+  if (opsK tr cd).joinClips join then Env.hypot (max L (1001 / 1000)) 1 else max L (1001 / 1000)
+
+/-- How far `Fit` lets a stroke reach from the path (the repaired code, 79f3f8c + 2516dea): exactly
+half the width for butt/round caps with bevel/round joins (unchanged); at least `max(Limit, 1.001)`
+half widths for a miter or arcs join with a finite limit (conservative: the full miter tip lies at
+most `Limit` half widths from its vertex), `hypot(max(Limit, 1.001), 1)` half widths when the joiner
+clips (MiterClipJoin: the two corners of the cut lie at most one half width beside the bisector at
+`Limit` half widths along it); at least √2 half widths for square caps (their corners). -/
 theorem stroke_extent (s : Style K) :
     ((opsK tr cd).isSquareCap s.cap = false → (opsK tr cd).joinLimit s.join = none →
         strokeExtent (opsK tr cd) s = s.width / 2) ∧
-    (∀ L, (opsK tr cd).joinLimit s.join = some L → max L (1001 / 1000) * s.width / 2 ≤ strokeExtent (opsK tr cd) s) ∧
+    (∀ L, (opsK tr cd).joinLimit s.join = some L → joinReach tr cd s.join L * s.width / 2 ≤ strokeExtent (opsK tr cd) s) ∧
     ((opsK tr cd).isSquareCap s.cap = true → s.width / 2 * Env.sqrt 2 ≤ strokeExtent (opsK tr cd) s) ∧
     (1 ≤ (Env.sqrt 2 : K) → 0 ≤ s.width → s.width / 2 ≤ strokeExtent (opsK tr cd) s) := by
   refine ⟨?_, ?_, ?_, ?_⟩
@@ -466,8 +497,8 @@ theorem stroke_extent (s : Style K) :
     simp only [strokeExtent, h1, h2]
     rfl
   · intro L hL
-    simp only [strokeExtent, hL]
-    exact le_max_right _ _
+    simp only [strokeExtent, hL, joinReach]
+    cases (opsK tr cd).joinClips s.join <;> exact le_max_right _ _
   · intro h1
     simp only [strokeExtent, h1]
     cases (opsK tr cd).joinLimit s.join with
@@ -482,6 +513,12 @@ theorem stroke_extent (s : Style K) :
     · exact le_max_left _ _
     · exact hsq
     · exact le_trans hsq (le_max_left _ _)
+
+/-- the clipping joiner is identity 4 (MiterClipJoin) and only that one; miter (0), arcs (3) and
+miter-clip (4) carry the limit 4 -/
+example : (opsK tr cd).joinClips 4 = true ∧ (opsK tr cd).joinClips 0 = false ∧
+    (opsK tr cd).joinLimit 4 = some (4 : K) ∧ (opsK tr cd).joinLimit 1 = none := by
+  simp [opsK]
 
 /-- The bounds `Fit` uses for a stroked path contain every point whose coordinates are within
 `strokeExtent` of a point of the path's bounds — in particular every miter tip (≤ Limit·hw from a
